@@ -12,7 +12,7 @@ PROPS["C01"] = {
     "enumerate": {"strings": "all strings of length <= 4 (quick) / <= 5 (thorough) over 23 class representatives",
                   "literal_bodies": "'//[' + every body of length <= 6 (quick) / <= 8 (thorough) over {1 f 0 : . ] g}"},
     "quick": {"cases": 100000},
-    "thorough": {"cases": 1500000, "ceiling_s": 3000},
+    "thorough": {"cases": 800000, "ceiling_s": 3000},
     "rule": ("texts from G_noise (40% grammar-built URI references, 35% of those with 1-3 edits or a suspicious bracketed literal, "
              "15% token soup, 10% random code points; wide runs add out-of-range code points) plus the exhaustive enumerations; "
              "every text goes through all six parse entry forms for wchar_t and, when representable, char. "
@@ -33,7 +33,7 @@ PROPS["C02"] = {
     "enumerate": {"strings": "accepted members of all strings of length <= 5 (quick) / <= 6 (thorough) over 19 representatives",
                   "literal_bodies": "accepted members of '//[' + bodies of length <= 7 (quick) / <= 9 (thorough) over {1 f 0 : . ] A}"},
     "quick": {"cases": 70000},
-    "thorough": {"cases": 2500000, "ceiling_s": 3000},
+    "thorough": {"cases": 560000, "ceiling_s": 3000},
     "rule": ("accepted texts: 80% grammar-directed G_uri, 20% accepted survivors of G_noise, plus the accepted members of the exhaustive enumerations; "
              "non-trivial = >= 3 components present, or an IP host, or >= 2 path segments; distinct by text"
              " Every allocation-failure position k of uriParseSingleUriExMm is tried as well: a parse that still reports success must deliver exactly the same components."),
@@ -48,7 +48,7 @@ PROPS["C03"] = {
                    "Failures (syntax, and allocation failure at every request position, fail-once and fail-from) must leave zero blocks and tolerate repeated free calls."),
     "level_note": "Trusted: ASan red zones, the MMU, my recording memory manager. Reads inside a mapped page but outside the range are visible at one-character granularity only in the flush placements and heap copies.",
     "quick": {"cases": 30000},
-    "thorough": {"cases": 400000, "ceiling_s": 3000},
+    "thorough": {"cases": 240000, "ceiling_s": 3000},
     "rule": ("G_noise texts over 0..255 (NUL included: explicit-range entry point); every prefix is a sub-case. Non-trivial = the text is rejected after its first character, "
              "or a split point falls inside a multi-character token (pct triplet, IP literal, after ':' or '.'), or an allocation failure hit at k >= 2; distinct by text"
              " Each split point and tail goes through the single-call entry (recording manager) and the state-based entry uriParseUriEx (default manager; nothing may be outstanding right at its failing return, before any cleanup); allocation faults are enumerated for both."
@@ -66,7 +66,7 @@ PROPS["C04"] = {
     "level_note": "Trusted: grammar automaton (selects accepted texts), IPv6 value model (checked against inet_pton in C01's self-test).",
     "enumerate": {"strings": "accepted members of all strings of length <= 5 (quick) / <= 6 (thorough) over 15 representatives"},
     "quick": {"cases": 90000},
-    "thorough": {"cases": 3000000, "ceiling_s": 3000},
+    "thorough": {"cases": 720000, "ceiling_s": 3000},
     "rule": ("60% G_uri, 30% pool of degenerate combinations named by the property (empty host/port/userinfo, leading empty segments, lone / ? #, IPv4, IP literals), "
              "10% accepted G_noise; non-trivial = authority present or >= 2 components; distinct by text"
              " Every allocation-failure position of the parse and of uriMakeOwnerMm is tried: whatever is still reported as success must recompose to the same text."),
@@ -81,7 +81,7 @@ PROPS["C05"] = {
                    "empty-string-on-failure and absence of any write beyond the capacity are checked. The capacity dimension is exhaustive per URI; URIs are explored."),
     "level_note": "Trusted: the MMU (guard page) and ASan. URIs whose text exceeds 256 characters get boundary capacities plus a stride instead of all capacities.",
     "quick": {"cases": 90000},
-    "thorough": {"cases": 1200000, "ceiling_s": 3000},
+    "thorough": {"cases": 720000, "ceiling_s": 3000},
     "rule": ("URIs: 36% parsed G_uri, 36% results of uriAddBaseUriEx on correlated pairs, 28% normalised with a random or full mask; each with all capacities -2..N+3 and charsWritten "
              "NULL in 1/3 of cases. Non-trivial = URI with >= 3 emitted pieces and at least one capacity strictly inside the text (0 < c <= N); distinct by case (each covers all its capacities)"),
     "assumptions": ["int accumulation beyond INT_MAX would need a multi-gigabyte URI and is out of reach"],
@@ -95,7 +95,7 @@ PROPS["C06"] = {
                    "recomposed text, structural well-formedness and the relative-base error code. The model is self-tested on all RFC 5.4 examples and against literal 5.2.4 on rooted paths."),
     "level_note": "Trusted: M_split/M_resolve. Where the guard dot is needed both the rooted and the rootless spelling of 'one . segment in front' are accepted (counted as relaxed).",
     "quick": {"cases": 60000},
-    "thorough": {"cases": 1500000, "ceiling_s": 3000},
+    "thorough": {"cases": 480000, "ceiling_s": 3000},
     "rule": ("pairs from one shared pool of schemes/authorities/segments (base scheme-less in ~10%); references: relative-path 35%, absolute-path 20%, same-scheme absolute 15%, "
              "other scheme 10%, network-path 10%, empty path 10%; both options; three API forms; both character types. Non-trivial = merge or absolute-path branch taken and a dot or "
              "empty segment took part; distinct by (base, ref, option)"
@@ -113,7 +113,7 @@ PROPS["C07"] = {
                    "same scheme, authority presence and parts, path text, query and fragment. Exploration over histories is the level the quantifier (all finite sequences) allows."),
     "level_note": "Trusted: grammar automaton, snapshot/read-back comparison. Histories are kept legal for a borrowed-memory API (no in-place change of an object others borrow from). Histories longer than 10 steps are not generated.",
     "quick": {"cases": 60000},
-    "thorough": {"cases": 1000000, "ceiling_s": 3000},
+    "thorough": {"cases": 480000, "ceiling_s": 3000},
     "rule": ("history = 2 correlated parses + 1..8 steps (normalise 31%, resolve 23%, create reference 23%, make owner 15%, parse 8%), ambiguity-prone segment vocabulary ('', '.', '..', 'a:b', "
              "'%2e'), all masks, both options/modes, both character types. Non-trivial = >= 2 non-parse steps of which at least one changed a path; distinct by history"
              " A third of the histories run under a fault plan: the k-th allocation (k=1 in a third of them) of every producing step fails once through a recording manager; what is still returned as success is judged like any other result. The second parse is a sibling of the base (same scheme/authority, base directory + fresh segments) in ~23%."),
@@ -128,7 +128,7 @@ PROPS["C08"] = {
                    "a second application must change nothing, the mask reported by both mask queries must reproduce full normalisation, and mask 0 must mean 'already normal'."),
     "level_note": "Trusted: M_split/M_norm (self-tested on the RFC 6.2.2 example and the repository's documented examples). In the four path corner shapes (path vanishes / empty or ':' first segment / host-less '//') alternative guard spellings are accepted and counted. Over-reporting by the mask query is allowed.",
     "quick": {"cases": 6000},
-    "thorough": {"cases": 100000, "ceiling_s": 3000},
+    "thorough": {"cases": 48000, "ceiling_s": 3000},
     "rule": ("G_uri texts with case/percent-rich additions (upper-case schemes and hosts, %41 %7e %2F %c3%A4, IP-literal hosts in upper case) x 64 masks x {borrowed, owned} x {default, recording manager}; "
              "non-trivial = at least two components change under the full mask or the path loses a dot segment; distinct by text (each covers its 128 (mask, ownership) sub-cases)"
              " With the recording manager every allocation-failure position k of the full-mask call is tried in both ownership states: a call that still reports success must give the full normal form. Enumerated domain: every text of the bounded path domain x 64 masks x 2 ownerships."),
@@ -145,7 +145,7 @@ PROPS["C10"] = {
                    "provably exists; the two error codes are checked for non-absolute inputs."),
     "level_note": "Trusted: uriAddBaseUri for the way back (itself checked by C06 against the model), snapshots. One open known finding (F-S5: base path with dot segments) is excluded by class predicate and counted.",
     "quick": {"cases": 80000},
-    "thorough": {"cases": 1500000, "ceiling_s": 3000},
+    "thorough": {"cases": 640000, "ceiling_s": 3000},
     "rule": ("(S, B) from one pool with forced overlap classes: identical 8%, S prefix of B 12%, B prefix of S 14%, differ in last segment 16%, other port/userinfo/authority 10%, query on one side 8%, "
              "rooted vs rootless 6%, other scheme 8%, unrelated path 12%, non-absolute 6%; '.'/'..' segments in 15%; both modes; both managers; both character types. "
              "Non-trivial = same scheme and same host presence/text (the relative branch is reachable); distinct by (S, B, mode)"
@@ -165,7 +165,7 @@ PROPS["C09"] = {
                    "guards the model-based C08 check from shared mistakes."),
     "level_note": "Trusted: uriAddBaseUri (checked by C06). A defect that shifts both sides equally is invisible here. One open known finding (F-N1: relative path cancels to nothing; pinned by the repository's tests) is excluded by class and counted.",
     "quick": {"cases": 70000},
-    "thorough": {"cases": 1200000, "ceiling_s": 3000},
+    "thorough": {"cases": 560000, "ceiling_s": 3000},
     "rule": ("(B, R) from one pool: R relative-path 35%, absolute-path 20%, same-scheme absolute 15%, other scheme 10%, network-path 10%, empty path 10%; B absolute with authority / rooted / "
              "rootless / empty path; segment vocabulary without %2e. Non-trivial = R is a relative-path or absolute-path reference whose path changes under normalisation; distinct by (B, R)"
              " R is normalised after uriMakeOwner in a quarter of the cases and with its k-th allocation failing once in a quarter (a still-successful result is held to the relation). Enumerated domain: every base x reference of the bounded path domain x {borrowed, owned}."),
@@ -181,7 +181,7 @@ PROPS["C11"] = {
                    "handling and bit-for-bit immutability of both arguments are checked, and for library-produced objects equality must coincide with identity of the recomposed texts."),
     "level_note": "Trusted: snapshot() (reads the public struct fields), uriToString for the text clause (C04/C05).",
     "quick": {"cases": 70000},
-    "thorough": {"cases": 1500000, "ceiling_s": 3000},
+    "thorough": {"cases": 560000, "ceiling_s": 3000},
     "rule": ("arms: 17% three independent G_uri texts, 42% text + single-component mutation (+ second mutation or copy), 17% equal by construction (re-parse / make-owner copy / resolve empty reference), "
              "25% three objects out of a generated history. Non-trivial = the pair differs in exactly one component, or is equal without being the independent arm; distinct by case"
              " A further arm (12%) compares overlapping views of one buffer ([0,n-i), [j,n) or [0,n-j), [0,n)), so ranges of different URIs start or end at the same address."
@@ -199,7 +199,7 @@ PROPS["C16"] = {
     "level_note": "Trusted: the models, the MMU. With unencoded CR/LF in the input and a converting break mode only safety, length and the non-break characters are judged (the statement is silent there); counted as relaxed.",
     "enumerate": {"strings": "all strings of length <= 5 (quick) / <= 6 (thorough) over {% 4 1 a A g + space CR LF 0xff D 0} x all 2x2 escape and 2x4 unescape options"},
     "quick": {"cases": 90000},
-    "thorough": {"cases": 1500000, "ceiling_s": 3000},
+    "thorough": {"cases": 720000, "ceiling_s": 3000},
     "rule": ("G_text over 1..255 built from chunks (%, %4, %41, %4G, %%41, %0D%0A, +, space, CR, LF, CRLF, 0x7f, 0x80, 0xff ...) with truncated triplets over-weighted at the very end; "
              "both entry points of each function; non-trivial = contains a character that must be escaped, a well-formed triplet or a malformed '%' and has length >= 2; distinct by text"),
     "assumptions": ["code points above 255 are outside the statement"],
@@ -215,7 +215,7 @@ PROPS["C17"] = {
                    "from one shared buffer: sums beyond INT_MAX must be refused, with UBSan watching the arithmetic."),
     "level_note": "Trusted: models of compose/dissect, the MMU, UBSan. The destination content after a too-large failure is not judged (the statement does not say).",
     "quick": {"cases": 20000},
-    "thorough": {"cases": 120000, "ceiling_s": 3000},
+    "thorough": {"cases": 160000, "ceiling_s": 3000},
     "rule": ("lists of 1-6 items, keys/values over 1..255 from chunks (%, %41, +, space, CR, LF, CRLF, &, =, ==, #, 0x80 ...), value NULL in 1/4, empty key in 1/6; both flags, four break modes, "
              "both managers, itemCount NULL in 1/3, plain API in 1/4; 1/40 of the cases are 'huge'. Non-trivial = >= 2 items, at least one NULL/empty value or empty key or a character that "
              "needs escaping, and a capacity strictly inside (0, R]; or a huge list; distinct by case"
@@ -233,7 +233,7 @@ PROPS["C18"] = {
     "level_note": "Trusted: the grammar automaton, the MMU. Names outside the statement's classes (drive-relative 'X:rest', non-letter drives, Windows names containing '/') are not generated.",
     "enumerate": {"names": "all names of length <= 6 (quick) / <= 7 (thorough) over {a C : \\ / space % .}, each in every class whose definition it meets"},
     "quick": {"cases": 120000},
-    "thorough": {"cases": 1500000, "ceiling_s": 3000},
+    "thorough": {"cases": 960000, "ceiling_s": 3000},
     "rule": ("classes: unix absolute 25%, unix relative 17%, windows drive 25%, windows UNC 17%, windows relative 17%; segments from chunks incl. space % : # ? 0x7f 0x80 0xff; "
              "non-trivial = the name contains a character that needs escaping or >= 2 separators; distinct by (class, name)"),
     "assumptions": ["'file:/x' is only a short form while the name does not itself start with '//'"],
@@ -248,7 +248,7 @@ PROPS["C14"] = {
                    "bit-for-bit unchanged, ASan sees any touch of released memory; plans that do not bite must reproduce the fault-free result. The position dimension is exhaustive per call."),
     "level_note": "Trusted: the recording manager, ASan. Only failure patterns are injected, not an allocator returning garbage. For n > 64 the first 32 positions plus 32 spread positions are used.",
     "quick": {"cases": 40000},
-    "thorough": {"cases": 150000, "ceiling_s": 3000},
+    "thorough": {"cases": 320000, "ceiling_s": 3000},
     "rule": ("operations weighted normalise 21%, resolve 16%, create reference 16%, parse 11%, make owner 11%, dissect 11%, normalise-resolved 11%, compose 5%; inputs from G_uri / correlated pairs; "
              "for each: all k in 1..n x {fail-once, fail-from} + one non-biting plan + up to 8 random masks, both character types. Non-trivial = the call makes >= 2 requests (so some k >= 2 hits after "
              "something was built); distinct by case (each covers all its plans)"
@@ -266,11 +266,12 @@ PROPS["C15"] = {
                    "frees, realloc(NULL,s) allocates, backend refusal surfaces as NULL with the old block intact, backend live set == caller live set, each backend block released once with its own pointer."),
     "level_note": "Trusted: the model, ASan, my recording backend. Alignment is not asserted (not claimed by the statement).",
     "quick": {"cases": 60000},
-    "thorough": {"cases": 1000000, "ceiling_s": 3000},
+    "thorough": {"cases": 480000, "ceiling_s": 3000},
     "rule": ("sequences of 1-40 ops: realloc 29%, malloc 24%, free 19%, calloc 14%, reallocarray 14%; pointer argument NULL in 1/8; fault mask on the first 40 backend requests in half of the sequences. "
              "Non-trivial = >= 3 live blocks at some point and a grow after a shrink or a backend failure during growth; distinct by sequence"
              " Two managers completed from two different backends live side by side (a block returns to the manager that made it; each backend's ledger must match); sizes include 70 000 - 270 000 byte blocks."),
     "assumptions": [],
+    "enumerate": {"huge_block": "one fixed history with a block of 4 GiB + 64 bytes (malloc, grow, shrink, free) through a completed manager over a mapping backend; run in one shard, skipped (and counted) when less than 12 GiB are free"},
 }
 
 PROPS["C12"] = {
@@ -283,7 +284,7 @@ PROPS["C12"] = {
                    "unchanged and every caller-supplied text byte-for-byte unchanged."),
     "level_note": "Trusted: ASan (use-after-free detection), freeze() (struct bytes, path nodes, IP data and referenced text). Read-only page protection of inputs is exercised in C03/C16, here byte comparison is used.",
     "quick": {"cases": 70000},
-    "thorough": {"cases": 600000, "ceiling_s": 3000},
+    "thorough": {"cases": 560000, "ceiling_s": 3000},
     "rule": ("histories of 2 correlated parses + 1..7 steps incl. observers, then a final make-owner (50%) or normalise with mask 1..63 on an object nobody else borrows from; all host kinds; both "
              "character types. Non-trivial = the final object was not yet owner and has >= 3 non-empty components including a host, or borrows from >= 2 source texts; distinct by history"
              " In a quarter of the cases the k-th allocation (k in 1..8) of the final step fails once (default manager, through the redirected libc references): the caller's texts and all other objects must be untouched and everything must still be releasable."),
@@ -318,7 +319,7 @@ PROPS["C19"] = {
                    "exact-size heap block counted in characters, so bytes-vs-characters mistakes surface as ASan reports or as truncated/garbled wide results."),
     "level_note": "Trusted: the narrow API as reference (its own semantics are checked by C01-C18), ASan.",
     "quick": {"cases": 60000},
-    "thorough": {"cases": 600000, "ceiling_s": 3000},
+    "thorough": {"cases": 480000, "ceiling_s": 3000},
     "rule": ("history of 2 correlated parses + 1..6 URI steps with observers + 1..5 extra steps (escape, unescape, query, filename, toString-with-capacity, possibly invalid parse) over code points 1..255; "
              "non-trivial = >= 3 ops and at least one produced text of length >= 8; each of the ten function groups is exercised in > 15% of transcripts (histogram); distinct by transcript"
              " In a quarter of the transcripts the k-th allocation of every other step (from the third on) fails once, identically for both APIs: error paths must agree too."),
@@ -340,7 +341,7 @@ PROPS["C20"] = {
     "symbol_scan": {"allow": ["defaultMemoryManager"]},
     "shrink_limit": 300,  # every case starts threads: keep shrinking short
     "quick": {"cases": [1500, 1500], "workers": 8},
-    "thorough": {"cases": [40000, 40000], "ceiling_s": 3000},
+    "thorough": {"cases": [12000, 12000], "ceiling_s": 3000},
     "rule": ("workload = shared inputs from correlated generators + 2..8 threads x 3..10 ops (13 op kinds) x 3 repetitions with generated yield/spin points, char or wchar_t API; run once under ASan with the "
              "writable-segment checksum and once under TSan. Non-trivial = >= 2 threads and >= 2 ops on shared operands; distinct by workload"
              " Half of the ops on resolve / create-reference / private parse+normalise / parse+make-owner go through a thread-private recording manager, most of them with its k-th request failing once; the manager must never be handed a block that is not its own (e.g. one belonging to a shared operand) and must end empty."),
